@@ -542,6 +542,7 @@ class Licensing(boolean.BooleanAlgebra):
                 strict=strict,
                 simple=simple,
             ))
+            tokens = check_tokens_sequence(tokens)
             expression = super(Licensing, self).parse(tokens)
 
         except ParseError as e:
@@ -873,6 +874,34 @@ def build_spdx_licensing(license_index):
         and not l.get('is_deprecated', False)
     ]
     return load_licensing_from_license_index(lics)
+
+
+def check_tokens_sequence(tokens):
+    """
+    Yield each of the ``tokens`` 3-tuples of (token, token string, position)
+    unchanged. Raise a ParseError for the invalid sequences of two tokens that
+    the boolean parser does not check: a symbol right after a closing parens,
+    and an operator or a closing parens right after an opening parens.
+    """
+    previous = None
+    for token in tokens:
+        token_obj, token_string, pos = token
+        error_code = None
+        if previous == TOKEN_RPAR and isinstance(token_obj, BaseSymbol):
+            error_code = PARSE_INVALID_SYMBOL_SEQUENCE
+        elif previous == TOKEN_LPAR and token_obj in (TOKEN_AND, TOKEN_OR):
+            error_code = PARSE_INVALID_OPERATOR_SEQUENCE
+        elif previous == TOKEN_LPAR and token_obj == TOKEN_RPAR:
+            error_code = PARSE_INVALID_NESTING
+        if error_code:
+            raise ParseError(
+                token_type=token_obj,
+                token_string=token_string,
+                position=pos,
+                error_code=error_code,
+            )
+        previous = token_obj
+        yield token
 
 
 def build_symbols_from_unknown_tokens(tokens):
